@@ -6,7 +6,7 @@ import numpy as np
 
 from . import iso_common as ic
 from . import table_common as tc
-from .core import Prop, close, dec_list, enc, enc_list, exc_class
+from .core import Prop, close, dec_list, enc, enc_list, exc_class, dec
 
 
 def fresh_axes():
@@ -164,9 +164,47 @@ class C19(Prop):
             return {"op": "reliability", "bias": case["diagram_type"] == "bias", **base}
         if case["stream"] == "murphy":
             return {"op": "murphy", "etas": enc_list(Fraction(v) for v in self.etas(case)), **base}
+        if case["fkind"] == "none":
+            return None
+        # bias plot: the model's compute_bias table per prediction column (as C09 asks for it) with the points drawn from it
+        from .c09 import C09
+
+        return C09().model_request({**case, "preds": case["cols"]})
+
+    def compare_bias(self, case, io, mos):
+        """the plotted points against the model's biasPoints / biasNullPoint, model column by model column"""
+        if "err" in io:
+            return f"valid plotting call raised {io['err']}: {io.get('msg')}"
+        lines = io["lines"]
+        data = [l for l in lines[1:] if l["marker"] == "o"]
+        diamonds = [l for l in lines[1:] if l["marker"] == "D"]
+        if case["fkind"] == "numeric" and tc.uniform_edge_tie(case["method"], [None if v is None else float(v) for v in case["feature"]], mos[0]["rows"]):
+            return None  # float edge arithmetic of 'uniform' is outside the model
+        if len(data) != len(mos):
+            return f"{len(data)} point sets vs model {len(mos)}"
+        for m, (l, mo) in enumerate(zip(data, mos)):
+            pts = mo["bias_points"]
+            if case["fkind"] == "string":
+                pts = sorted(pts, key=lambda p: p[0])  # the plot puts categories at integer positions in sorted label order
+            want = [float(dec(p[2])) for p in pts]
+            got = [v for x, v in zip(l["x"], l["y"]) if not (isinstance(x, float) and math.isnan(x))] if case["fkind"] == "numeric" else l["y"]
+            tol = 1e-7 if case["f"] == "expectile" else 1e-9
+            if len(got) != len(want) or any(not close(u, v, tol, tol) for u, v in zip(got, want)):
+                return f"model column {m}: plotted bias points {got} vs model {want}"
+            if case["fkind"] == "numeric" and case.get("kind") != "float32_nan":
+                xs = [x for x in l["x"] if not math.isnan(x)]
+                wx = [tc.cell_val(p[1]) for p in pts]
+                if any(w is None or not close(u, w, 1e-9, 1e-9) for u, w in zip(xs, wx) if w is None or math.isfinite(w)):
+                    return f"model column {m}: plotted positions {xs} vs model bin means {wx}"
+            null = mo.get("bias_null")
+            if null is not None:
+                if m >= len(diamonds) or len(diamonds[m]["y"]) != 1 or not close(diamonds[m]["y"][0], float(dec(null)), tol, tol):
+                    return f"model column {m}: null marker {diamonds[m]['y'] if m < len(diamonds) else None} vs model {float(dec(null))!r}"
         return None
 
     def compare(self, case, io, mo):
+        if case["stream"] == "bias":
+            return self.compare_bias(case, io, mo)
         if "err" in io or "err" in mo:
             if ("err" in io) != ("err" in mo):
                 return f"outcome differs: implementation {io.get('err', 'ok')} ({io.get('msg', '')}) vs model {mo.get('err', 'ok')}"
